@@ -16,7 +16,7 @@ func init() {
 		Level: "other",
 		Explanation: "Decides the non-interference and payload clauses: (R-EVFRESH) for every send on a chan Event (today two: LOOP in reportEvent, OP_EXEC in the operator wrapper), every slice/map/pointer-typed component statically reachable in the sent value (Event.Stack, OpEventData.Params inside Data) is rooted in a make/append-to-nil inside the sending function, filled before the send and not written after it: a payload that aliases a buffer the engine reuses (param2, the operand stack) changes under the consumer's feet; " +
 			"(R-WRAPID) the wrapper installed by calAndSetEventNode calls the captured original operator with its own (ctx, params) unchanged and returns exactly that call's two results, and reports name, a copy of the arguments taken BEFORE the operator is applied (D15), result and error of that very call; (R-EVNOOP) in Eval and TryEval, along the edge from the event arm to the loop latch every loop-carried variable is its loop-header value and the arm stores nothing: an event node only calls reportEvent(e, os, osTop, curt.value); " +
-			"(R-DUMPSKIP) Dump's child enumeration excludes nodes of kind event, so the decompiled text does not depend on event mode; (R-EVGATE) calAndSetEventNode runs only under ReportEvent or Debug. Writes of the wrapper/reportEvent beyond the send are excluded by C07 R-EFFECT. (R-EVREMAP) calAndSetEventNode rebuilds node array and parent table entry by entry in step (an event node mirrors its real node), records every appended node's position in the index table keyed by its original index, and relabels scIdx through the real-node table and parents through the event/real table under the -1 guards. NOT decided: ordering of OP_EXEC events relative to evaluation order. (R-EVSTACK) the LOOP event's Stack has osTop+1 elements, element i from os[i] for every i, complete before the send.",
+			"(R-DUMPSKIP) Dump's child enumeration excludes nodes of kind event, so the decompiled text does not depend on event mode; (R-EVGATE) calAndSetEventNode runs only under ReportEvent or Debug. Writes of the wrapper/reportEvent beyond the send are excluded by C07 R-EFFECT. (R-EVREMAP) calAndSetEventNode rebuilds node array and parent table entry by entry in step (an event node mirrors its real node), records every appended node's position in the index table keyed by its original index, and relabels scIdx through the real-node table and parents through the event/real table under the -1 guards. NOT decided: ordering of OP_EXEC events relative to evaluation order. (R-EVSTACK) the LOOP event's Stack has osTop+1 elements, element i from os[i] for every i, complete before the send. Round 2: (R-WRAPALL) in calAndSetEventNode every path through one iteration of the node loop on which the node can be an operator or a fast operator stores the event wrapper into node.operator; R-EVREMAP also requires every appended real or event node to be the subject of an index-table store.",
 		Run:       runC12,
 		Witnesses: append(append([]Witness{}, delWitnessesC12...), c12Witnesses...),
 	})
